@@ -1,6 +1,6 @@
 """Contracts for slimta/queue/__init__.py (Queue) and the abstract reference store RS."""
 import z3
-from pyvc.registry import klass, extern, contract, predicate, assume_note, global_object
+from pyvc.registry import klass, extern, contract, predicate, assume_note, global_object, monitor
 from pyvc import types as T
 from pyvc.core import Val, SeqV, Undecided
 from pyvc import exec as E, builtins as B, calls
@@ -110,6 +110,20 @@ predicate('GHOST_ok(q)',
           'and q.bounces is not q.permfails and q.store != None')
 
 
+predicate('INV_flight(q)', 'subset(q.attempting, q.active_ids)')
+
+# G2: what must hold whenever a Queue method can be descheduled, and what the other greenlets may change meanwhile
+monitor('Queue',
+        inv=['INV_timetable(self)', 'GHOST_ok(self)', 'INV_flight(self)'],
+        shared=['contents(self.queued)', 'contents(self.queued_ids)', 'self.queued', 'self.queued_ids',
+                'contents(self.active_ids)', 'self.wake.flag', 'contents(self.pending_dequeue)',
+                'contents(self.attempting)', 'contents(self.pending_retry)'])
+# what the other greenlets guarantee to the greenlet that owns the attempt for `id` (only the owner releases it,
+# and _add_queued refuses ids that are active)
+OWNER_RELY = ['implies(old(id in self.attempting), id in self.attempting and id in self.active_ids '
+              'and id not in self.queued_ids)']
+
+
 def _set_add_ghost(st, self_v, field, x):
     cur = st.read_field(self_v.z, 'Queue', field)
     et = cur.t.args[0]
@@ -193,15 +207,17 @@ contract('Queue._check_ready', module=M, props=['C12', 'C03'],
                              '       exists(range(0, _k), lambda j: self.queued[j][1] == x)))'],
                         modifies=['contents(self.pending_dequeue)'])})
 
-contract('Queue.flush', module=M, props=['C12'],
+contract('Queue.flush', module=M, props=['C12'], yields=True,
          params={'self': 'Queue'},
-         requires=['INV_timetable(self)', 'GHOST_ok(self)', 'self.queued_lock != None'],
-         ensures=['INV_timetable(self)', 'len(self.queued) == 0',
-                  'forall(old(self.queued), lambda e: e[1] in self.pending_dequeue)',
-                  'setv(self.active_ids) == old(setv(self.active_ids))'],
-         modifies=['self.queued', 'self.queued_ids', 'contents(self.queued_ids)', 'self.wake.flag',
-                   'self.queued_lock.counter', 'contents(self.pending_dequeue)'],
-         loops={0: dict(inv=['forall(range(0, _k), lambda j: self.queued[j][1] in self.pending_dequeue)'],
+         requires=['QUEUE_ok(self)', 'self.queued_lock != None'],
+         # _gq: the timetable at the moment the lock has been taken (other greenlets ran while flush waited for it)
+         ghost_after={'self.queued_lock.acquire()': ['_gq = self.queued[0:len(self.queued)]']},
+         ensures=['INV_timetable(self)', 'GHOST_ok(self)', 'INV_flight(self)', 'len(self.queued) == 0'],
+         checks=['forall(_gq, lambda e: e[1] in self.pending_dequeue)'],
+         modifies=['contents(self.queued)', 'contents(self.queued_ids)', 'self.queued', 'self.queued_ids', 'contents(self.active_ids)', 'self.wake.flag', 'contents(self.pending_dequeue)', 'contents(self.attempting)', 'contents(self.pending_retry)', 'self.queued_lock.counter', 'fresh'],
+         loops={0: dict(inv=['forall(range(0, _k), lambda j: self.queued[j][1] in self.pending_dequeue)',
+                             '_gq != None and fresh(_gq) and _gq is not self.queued and seq(_gq) == seq(self.queued)',
+                             'GHOST_ok(self)', 'INV_flight(self)', 'INV_timetable(self)'],
                         modifies=['contents(self.pending_dequeue)'])})
 
 extern('QueueStorage.load', params={'self': 'QueueStorage'}, returns='List[Entry]', yields=True,
@@ -210,32 +226,39 @@ extern('QueueStorage.load', params={'self': 'QueueStorage'}, returns='List[Entry
 extern('QueueStorage.wait', params={'self': 'QueueStorage'}, returns='List[Entry]', yields=True,
        ensures=['result != None', 'fresh(result)'], raises={'NotImplementedError': []})
 
-contract('Queue._load_all', module=M, props=['C12'],
+contract('Queue._load_all', module=M, props=['C12'], yields=True,
          params={'self': 'Queue'},
-         requires=['INV_timetable(self)', 'self.store != None'],
-         ensures=['INV_timetable(self)'],
-         modifies=['contents(self.queued)', 'contents(self.queued_ids)', 'self.wake.flag'],
-         loops={0: dict(inv=['INV_timetable(self)',
-                             'forall(range(0, _k), lambda j: _seq0[j][1] in self.queued_ids or _seq0[j][1] in self.active_ids)'])})
+         requires=['QUEUE_ok(self)', 'self.store != None'],
+         ensures=['INV_timetable(self)', 'GHOST_ok(self)', 'INV_flight(self)'],
+         modifies=['contents(self.queued)', 'contents(self.queued_ids)', 'self.queued', 'self.queued_ids', 'contents(self.active_ids)', 'self.wake.flag', 'contents(self.pending_dequeue)', 'contents(self.attempting)', 'contents(self.pending_retry)'],
+         loops={0: dict(inv=['INV_timetable(self)', 'GHOST_ok(self)', 'INV_flight(self)',
+                             'forall(range(0, _k), lambda j: _seq0[j][1] in self.queued_ids or _seq0[j][1] in self.active_ids)'],
+                        modifies=['contents(self.queued)', 'contents(self.queued_ids)', 'self.wake.flag'])})
 
-contract('Queue._wait_store', module=M, props=['C12'],
+contract('Queue._wait_store', module=M, props=['C12'], yields=True,
          params={'self': 'Queue'},
-         requires=['INV_timetable(self)', 'self.store != None'],
-         ensures=['INV_timetable(self)'],
-         modifies=['contents(self.queued)', 'contents(self.queued_ids)', 'self.wake.flag'],
-         loops={0: dict(inv=['INV_timetable(self)']),
-                1: dict(inv=['INV_timetable(self)',
-                             'forall(range(0, _k), lambda j: _seq1[j][1] in self.queued_ids or _seq1[j][1] in self.active_ids)'])})
+         requires=['QUEUE_ok(self)', 'self.store != None'],
+         ensures=['INV_timetable(self)', 'GHOST_ok(self)', 'INV_flight(self)'],
+         modifies=['contents(self.queued)', 'contents(self.queued_ids)', 'self.queued', 'self.queued_ids', 'contents(self.active_ids)', 'self.wake.flag', 'contents(self.pending_dequeue)', 'contents(self.attempting)', 'contents(self.pending_retry)'],
+         loops={0: dict(inv=['INV_timetable(self)', 'GHOST_ok(self)', 'INV_flight(self)', 'self.store != None']),
+                1: dict(inv=['INV_timetable(self)', 'GHOST_ok(self)', 'INV_flight(self)',
+                             'forall(range(0, _k), lambda j: _seq1[j][1] in self.queued_ids or _seq1[j][1] in self.active_ids)'],
+                        modifies=['contents(self.queued)', 'contents(self.queued_ids)', 'self.wake.flag'])})
 
 contract('Queue._remove', module=M, props=['C01', 'C03', 'C13'],
          params={'self': 'Queue', 'id': 'Str'},
          requires=['GHOST_ok(self)', 'self.queued_ids != None', 'self.active_ids != None',
                    'self.queued_ids is not self.active_ids'],
+         # the attempt for `id` ends here (ghost: it leaves `attempting` together with active_ids)
+         ghost_after={'self.active_ids.discard(id)': ['self.attempting.discard(id)']},
          ensures=['id in self.removed', 'id not in self.queued_ids', 'id not in self.active_ids',
+                  'id not in self.attempting',
                   'setv(self.removed) == store(old(setv(self.removed)), id, True)',
                   'setv(self.queued_ids) == store(old(setv(self.queued_ids)), id, False)',
-                  'setv(self.active_ids) == store(old(setv(self.active_ids)), id, False)'],
-         modifies=['contents(self.removed)', 'contents(self.queued_ids)', 'contents(self.active_ids)'])
+                  'setv(self.active_ids) == store(old(setv(self.active_ids)), id, False)',
+                  'setv(self.attempting) == store(old(setv(self.attempting)), id, False)'],
+         modifies=['contents(self.removed)', 'contents(self.queued_ids)', 'contents(self.active_ids)',
+                   'contents(self.attempting)'])
 
 contract('Queue._perm_fail', module=M, props=['C01', 'C13'],
          params={'self': 'Queue', 'id': 'Opt[Str]', 'envelope': 'Envelope', 'reply': 'Reply'},
@@ -250,9 +273,14 @@ contract('Queue._perm_fail', module=M, props=['C01', 'C13'],
              'implies(id is not None, cast(id, Str) in self.removed and cast(id, Str) not in self.active_ids)',
              'implies(id is None, setv(self.removed) == old(setv(self.removed)) '
              '        and setv(self.active_ids) == old(setv(self.active_ids)) '
-             '        and setv(self.queued_ids) == old(setv(self.queued_ids)))'],
+             '        and setv(self.queued_ids) == old(setv(self.queued_ids)) '
+             '        and setv(self.attempting) == old(setv(self.attempting)))',
+             'implies(id is not None, cast(id, Str) not in self.attempting '
+             '        and setv(self.queued_ids) == store(old(setv(self.queued_ids)), cast(id, Str), False) '
+             '        and setv(self.active_ids) == store(old(setv(self.active_ids)), cast(id, Str), False) '
+             '        and setv(self.attempting) == store(old(setv(self.attempting)), cast(id, Str), False))'],
          modifies=['contents(self.removed)', 'contents(self.queued_ids)', 'contents(self.active_ids)',
-                   'contents(self.bounces)'])
+                   'contents(self.bounces)', 'contents(self.attempting)'])
 
 # ---------------------------------------------------------------------------- bounce grouping (C13)
 predicate('GROUPS_ok(groups, envelope, n)',
@@ -308,43 +336,50 @@ extern('Backoff.__call__', params={'self': 'Backoff', 'envelope': 'Envelope', 'a
        returns='Opt[Real]', notes='backoff(envelope, attempts): any number of seconds or None (C01/C12 quantify over it)')
 klass('Queue', fields={'backoff': 'Backoff'})
 
-predicate('QUEUE_ok(q)', 'INV_timetable(q) and GHOST_ok(q) and q.backoff != None')
+predicate('QUEUE_ok(q)', 'INV_timetable(q) and GHOST_ok(q) and INV_flight(q) and q.backoff != None')
 
-contract('Queue._retry_later', module=M, props=['C01', 'C12', 'C13', 'C03'],
+contract('Queue._retry_later', module=M, props=['C01', 'C12', 'C13', 'C03'], yields=True,
          params={'self': 'Queue', 'id': 'Str', 'envelope': 'Envelope', 'replies': 'Union[Reply, List[Reply]]'},
          returns='Bool',
          requires=['QUEUE_ok(self)', 'envelope != None', 'envelope.recipients != None',
-                   'id in self.active_ids', 'id not in self.queued_ids',
+                   'id in self.attempting', 'id in self.active_ids', 'id not in self.queued_ids',
                    'implies(is_type(replies, List[Reply]), '
                    '  len(cast(replies, List[Reply])) >= len(envelope.recipients) '
                    '  and forall(cast(replies, List[Reply]), lambda r: r != None and r.message is not None))',
                    'implies(is_type(replies, Reply), cast(replies, Reply) != None and cast(replies, Reply).message is not None)'],
-         ensures=['INV_timetable(self)',
+         rely=OWNER_RELY,
+         # ghost: snapshots taken after the last yield point of the exhausted branch; the attempt ends (leaves
+         # `attempting`) where the code releases the id
+         ghost_after={'wait = self.backoff(envelope, attempts)': ['_gact = set(self.active_ids)', '_gqid = set(self.queued_ids)',
+                                                                  '_grem = set(self.removed)', '_gatt = set(self.attempting)'],
+                      'self.active_ids.discard(id)': ['self.attempting.discard(id)']},
+         ensures=['INV_timetable(self)', 'GHOST_ok(self)', 'INV_flight(self)',
                   # retry granted: the message is released and scheduled, with the time stamp that was stored
-                  'implies(result, id in self.queued_ids and id not in self.active_ids '
+                  'implies(result, id in self.queued_ids and id not in self.active_ids and id not in self.attempting '
                   '        and len(self.bounces) == old(len(self.bounces)))',
                   'implies(result, setv(self.removed) == old(setv(self.removed)))',
-                  'implies(not result, id not in self.queued_ids)',
+                  'implies(result, exists(self.queued, lambda e: e[1] == id and e[0] == self.store.rs_ts[id]))',
+                  # retries exhausted: removed, and bounced -- never silently dropped
+                  'implies(not result, id in self.removed and id not in self.active_ids and id not in self.attempting '
+                  '        and id not in self.queued_ids)',
                   'implies(not result and bool(envelope.sender) and len(envelope.recipients) > 0, '
                   '        len(self.bounces) > old(len(self.bounces)))',
-                  'implies(result and old(id not in self.queued_ids), '
-                  '        exists(self.queued, lambda e: e[1] == id and e[0] == self.store.rs_ts[id]))',
-                  # retries exhausted: removed, and bounced -- never silently dropped
-                  'implies(not result, id in self.removed and id not in self.active_ids)',
                   'implies(not result and not bool(envelope.sender), len(self.bounces) == old(len(self.bounces)))',
                   'implies(not result and bool(envelope.sender), forall(range(0, len(envelope.recipients)), lambda i: '
                   '   implies(trig(i), exists(range(old(len(self.bounces)), len(self.bounces)), lambda b: '
                   '       envelope.recipients[i] in seq(self.bounces[b][0].recipients) '
                   '       and self.bounces[b][0].sender == envelope.sender)), trigger=lambda i: trig(i)))',
                   'forall(range(0, old(len(self.bounces))), lambda j: same(self.bounces[j], old(seq(self.bounces))[j]))'],
-         modifies=['contents(self.queued)', 'contents(self.queued_ids)', 'contents(self.active_ids)',
-                   'self.wake.flag', 'contents(self.removed)', 'contents(self.bounces)',
-                   'self.store.rs_attempts', 'self.store.rs_ts', 'any(Reply).message'],
+         modifies=['contents(self.queued)', 'contents(self.queued_ids)', 'self.queued', 'self.queued_ids', 'contents(self.active_ids)', 'self.wake.flag', 'contents(self.pending_dequeue)', 'contents(self.attempting)', 'contents(self.pending_retry)', 'contents(self.removed)', 'contents(self.bounces)',
+                   'self.store.rs_attempts', 'self.store.rs_ts', 'any(Reply).message', 'fresh'],
          loops={0: dict(modifies=['contents(self.bounces)', 'any(Reply).message', 'contents(self.removed)',
-                                  'contents(self.queued_ids)', 'contents(self.active_ids)'],
+                                  'contents(self.queued_ids)', 'contents(self.active_ids)', 'contents(self.attempting)'],
                         inv=['forall(_seq0, lambda g: g[0] != None and g[0].message is not None)',
-                             'setv(self.removed) == old(setv(self.removed)) and setv(self.queued_ids) == old(setv(self.queued_ids)) '
-                             'and setv(self.active_ids) == old(setv(self.active_ids))',
+                             'INV_timetable(self)', 'GHOST_ok(self)', 'INV_flight(self)',
+                             '_gact != None and _gqid != None and _grem != None and _gatt != None',
+                             'setv(self.removed) == setv(_grem) and setv(self.queued_ids) == setv(_gqid) '
+                             'and setv(self.active_ids) == setv(_gact) and setv(self.attempting) == setv(_gatt)',
+                             'id in self.attempting and id in self.active_ids and id not in self.queued_ids',
                              'implies(not bool(envelope.sender), len(self.bounces) == old(len(self.bounces)))',
                              'implies(bool(envelope.sender), len(self.bounces) == old(len(self.bounces)) + _k)',
                              'forall(range(0, _k), lambda j: implies(bool(envelope.sender), '
@@ -364,38 +399,37 @@ predicate('RESULTS_ok(results, envelope)',
           '      cast(dict_get(results, r), RelayError).reply != None '
           '      and cast(dict_get(results, r), RelayError).reply.message is not None))')
 
-contract('Queue._handle_partial_relay', module=M, props=['C01', 'C03', 'C13'],
+contract('Queue._handle_partial_relay', module=M, props=['C01', 'C03', 'C13'], yields=True,
          params={'self': 'Queue', 'id': 'Str', 'envelope': 'Envelope', 'attempts': 'Int',
                  'results': 'Dict[Str, RcptResult]'},
          requires=['QUEUE_ok(self)', 'RESULTS_ok(results, envelope)',
-                   'id in self.active_ids', 'id not in self.queued_ids',
+                   'id in self.attempting', 'id in self.active_ids', 'id not in self.queued_ids',
                    'distinct_by(envelope.recipients, lambda r: r)',
                    'seq(envelope.recipients) == rs_out(self.store, id)'],
-         ensures=[
+         rely=OWNER_RELY,
+         # C03 marks-before-release: the settled positions must be persisted while this attempt still owns the id
+         # (otherwise an attempt started during the yielding store call sees them again)
+         call_requires={'QueueStorage.set_recipients_delivered': ['id in self.active_ids']},
+         ensures=['INV_timetable(self)', 'GHOST_ok(self)', 'INV_flight(self)',
+                  'implies(not bool(envelope.sender), len(self.bounces) == old(len(self.bounces)))',
+                  'implies(bool(envelope.sender) and exists(envelope.recipients, lambda r: permanent(dict_get(results, r))), '
+                  '        len(self.bounces) > old(len(self.bounces)))'],
+         checks=[
              # C03 marks-exact: when the message stays queued, exactly the settled positions were marked
-             'implies(id in self.queued_ids, self.store.n_marks == old(self.store.n_marks) + 1 '
-             '   and self.store.last_marked_id == id '
-             '   and forall(range(0, len(envelope.recipients)), lambda p: '
+             'implies(ncalls("QueueStorage.set_recipients_delivered") == 1, self.store.last_marked_id == id and forall(range(0, len(envelope.recipients)), lambda p: '
              '        (p in self.store.last_marks) == settled(dict_get(results, envelope.recipients[p]))))',
              # C01: otherwise the message has been removed (store.remove called or spawned) ...
-             'implies(id not in self.queued_ids, id in self.removed or id not in self.store.rs_has)',
-             # ... and then nobody is left outstanding silently: with transient failures and no retry granted,
-             # and with permanent failures in every case, at least one bounce per kind of failure is spawned
-             # (which recipients each bounce names is the postcondition of _split_by_reply / _retry_later)
-             'implies(id not in self.queued_ids and bool(envelope.sender) '
+             'implies(ncalls("QueueStorage.set_recipients_delivered") == 0, id in self.removed or ncalls("QueueStorage.remove") == 1)',
+             # ... and then nobody is left outstanding silently
+             'implies(ncalls("QueueStorage.set_recipients_delivered") == 0 and bool(envelope.sender) and exists(envelope.recipients, lambda r: transient(dict_get(results, r))), '
+             '        len(self.bounces) > old(len(self.bounces)))',
+             'implies(ncalls("QueueStorage.set_recipients_delivered") == 0 and bool(envelope.sender) and exists(envelope.recipients, lambda r: permanent(dict_get(results, r))) '
              '        and exists(envelope.recipients, lambda r: transient(dict_get(results, r))), '
-             '        len(self.bounces) > old(len(self.bounces)))',
-             'implies(bool(envelope.sender) and exists(envelope.recipients, lambda r: permanent(dict_get(results, r))), '
-             '        len(self.bounces) > old(len(self.bounces)))',
-             'implies(bool(envelope.sender) and exists(envelope.recipients, lambda r: permanent(dict_get(results, r))) '
-             '        and exists(envelope.recipients, lambda r: transient(dict_get(results, r))) and id not in self.queued_ids, '
              '        len(self.bounces) > old(len(self.bounces)) + 1)',
-             'implies(not bool(envelope.sender), len(self.bounces) == old(len(self.bounces)))'],
-         modifies=['contents(self.queued)', 'contents(self.queued_ids)', 'contents(self.active_ids)',
-                   'self.wake.flag', 'contents(self.removed)', 'contents(self.bounces)',
-                   'self.store.rs_attempts', 'self.store.rs_ts', 'self.store.rs_has', 'self.store.rs_rcpts',
-                   'self.store.rs_nrcpts', 'self.store.last_marks', 'self.store.last_marked_id',
-                   'self.store.n_marks', 'any(Reply).message'],
+             # a message is marked at most once per attempt, and only when some recipient is still outstanding
+             'ncalls("QueueStorage.set_recipients_delivered") <= 1',
+             'implies(ncalls("QueueStorage.set_recipients_delivered") == 1, exists(envelope.recipients, lambda r: transient(dict_get(results, r))))'],
+         modifies=['contents(self.queued)', 'contents(self.queued_ids)', 'self.queued', 'self.queued_ids', 'contents(self.active_ids)', 'self.wake.flag', 'contents(self.pending_dequeue)', 'contents(self.attempting)', 'contents(self.pending_retry)', 'contents(self.removed)', 'contents(self.bounces)', 'self.store.rs_attempts', 'self.store.rs_ts', 'self.store.rs_has', 'self.store.rs_rcpts', 'self.store.rs_nrcpts', 'self.store.last_marks', 'self.store.last_marked_id', 'self.store.n_marks', 'any(Reply).message', 'fresh'],
          locals={'delivered': 'Set[Int]', 'tempfails': 'List[Tuple[Str, Reply]]',
                  'permfails': 'List[Tuple[Str, Reply]]'},
          loops={0: dict(modifies=['fresh'],
@@ -410,11 +444,13 @@ contract('Queue._handle_partial_relay', module=M, props=['C01', 'C03', 'C13'],
                              'forall(permfails, lambda t: t[1] != None and t[1].message is not None '
                              '   and dict_has(results, t[0]) and permanent(dict_get(results, t[0])))',
                              'forall(range(0, _k), lambda j: implies(transient(dict_get(results, dict_keys(results)[j])), len(tempfails) > 0))',
-                             'forall(range(0, _k), lambda j: implies(permanent(dict_get(results, dict_keys(results)[j])), len(permfails) > 0))']),
+                             'forall(range(0, _k), lambda j: implies(permanent(dict_get(results, dict_keys(results)[j])), len(permfails) > 0))',
+                             'implies(len(tempfails) > 0, exists(range(0, _k), lambda j: transient(dict_get(results, dict_keys(results)[j]))))']),
                 1: dict(modifies=['contents(self.bounces)', 'contents(self.removed)',
-                                  'contents(self.queued_ids)', 'contents(self.active_ids)'],
-                        inv=['setv(self.removed) == old(setv(self.removed)) and setv(self.queued_ids) == old(setv(self.queued_ids)) '
-                             'and setv(self.active_ids) == old(setv(self.active_ids))',
+                                  'contents(self.queued_ids)', 'contents(self.active_ids)', 'contents(self.attempting)'],
+                        inv=['INV_timetable(self)', 'GHOST_ok(self)', 'INV_flight(self)',
+                             'id in self.attempting and id in self.active_ids and id not in self.queued_ids',
+                             'setv(self.removed) == old(setv(self.removed))',
                              'implies(not bool(envelope.sender), len(self.bounces) == old(len(self.bounces)))',
                              'implies(bool(envelope.sender), len(self.bounces) == old(len(self.bounces)) + _k)',
                              'forall(range(0, _k), lambda j: implies(bool(envelope.sender), '
@@ -481,45 +517,42 @@ def _py_dict(st, args):
 calls.SPECFUNS['py_dict'] = _py_dict
 
 
-contract('Queue._attempt', module=M, props=['C01', 'C03', 'C13'],
+contract('Queue._attempt', module=M, props=['C01', 'C03', 'C13'], yields=True,
          params={'self': 'Queue', 'id': 'Str', 'envelope': 'Envelope', 'attempts': 'Int'},
          requires=['QUEUE_ok(self)', 'self.relay != None', 'envelope != None', 'envelope.recipients != None',
-                   'id in self.active_ids', 'id not in self.queued_ids',
+                   'id in self.attempting', 'id in self.active_ids', 'id not in self.queued_ids',
                    'distinct_by(envelope.recipients, lambda r: r)',
                    'seq(envelope.recipients) == rs_out(self.store, id)'],
-         ensures=[
+         rely=OWNER_RELY,
+         ensures=['INV_timetable(self)', 'GHOST_ok(self)', 'INV_flight(self)',
              # success for everybody: removed, nothing bounced
-             'implies(self.relay.last_outcome == 0, id in self.removed and len(self.bounces) == old(len(self.bounces)) '
-             '        and setv(self.pending_retry) == old(setv(self.pending_retry)))',
+             'implies(self.relay.last_outcome == 0, id in self.removed and len(self.bounces) == old(len(self.bounces)))',
              # transient failure: a retry is pending, the message is not removed, nothing is bounced yet
              'implies(self.relay.last_outcome == 3, id in self.pending_retry and len(self.bounces) == old(len(self.bounces)) '
              '        and setv(self.removed) == old(setv(self.removed)))',
              # permanent failure: removed, and bounced iff there is a sender
              'implies(self.relay.last_outcome == 4, id in self.removed '
-             '        and len(self.bounces) == old(len(self.bounces)) + ite(bool(envelope.sender), 1, 0) '
-             '        and setv(self.pending_retry) == old(setv(self.pending_retry)))',
+             '        and len(self.bounces) == old(len(self.bounces)) + ite(bool(envelope.sender), 1, 0))',
              'implies(self.relay.last_outcome == 4 and bool(envelope.sender), '
              '        self.bounces[len(self.bounces) - 1][0] is envelope)'],
          raises={'OtherException': [
              # unexpected exception: treated as transient (retry pending), then propagated
              'self.relay.last_outcome == 5', 'id in self.pending_retry',
              'setv(self.removed) == old(setv(self.removed))', 'len(self.bounces) == old(len(self.bounces))']},
-         modifies=['contents(self.queued)', 'contents(self.queued_ids)', 'contents(self.active_ids)',
-                   'self.wake.flag', 'contents(self.removed)', 'contents(self.bounces)',
-                   'contents(self.pending_retry)', 'self.relay.last_outcome',
-                   'self.store.rs_attempts', 'self.store.rs_ts', 'self.store.rs_has', 'self.store.rs_rcpts',
-                   'self.store.rs_nrcpts', 'self.store.last_marks', 'self.store.last_marked_id',
-                   'self.store.n_marks', 'any(Reply).message'])
+         modifies=['contents(self.queued)', 'contents(self.queued_ids)', 'self.queued', 'self.queued_ids', 'contents(self.active_ids)', 'self.wake.flag', 'contents(self.pending_dequeue)', 'contents(self.attempting)', 'contents(self.pending_retry)', 'contents(self.removed)', 'contents(self.bounces)', 'self.relay.last_outcome',
+                   'self.store.rs_attempts', 'self.store.rs_ts', 'self.store.rs_has', 'self.store.rs_rcpts', 'self.store.rs_nrcpts', 'self.store.last_marks', 'self.store.last_marked_id', 'self.store.n_marks', 'any(Reply).message', 'fresh'])
 
-contract('Queue._dequeue', module=M, props=['C03', 'C12'],
+contract('Queue._dequeue', module=M, props=['C03', 'C12'], yields=True,
          params={'self': 'Queue', 'id': 'Str'},
-         requires=['QUEUE_ok(self)', 'forall(Str, lambda x: implies(x in self.attempting, x in self.active_ids))'],
-         ensures=['implies(id not in self.store.rs_has, setv(self.active_ids) == old(setv(self.active_ids)) '
-                  '        and setv(self.attempting) == old(setv(self.attempting)))',
-                  'implies(id in self.store.rs_has, id in self.active_ids)',
-                  'implies(id in self.store.rs_has and old(id not in self.active_ids), id in self.attempting)',
-                  'forall(Str, lambda x: implies(x in self.attempting, x in self.active_ids))'],
-         modifies=['contents(self.active_ids)', 'contents(self.attempting)'])
+         requires=['QUEUE_ok(self)', 'self.store != None'],
+         ensures=['INV_timetable(self)', 'GHOST_ok(self)', 'INV_flight(self)'],
+         checks=[
+             # an attempt is started only for a message that still exists, at most once, and its id is marked
+             # active in the same atomic block (the spawn obligations `not-already-in-flight` / `marked-active`
+             # are proved at the _pool_spawn call)
+             'ncalls("Queue._pool_spawn") <= 1',
+             'implies(ncalls("Queue._pool_spawn") == 1, id in self.attempting and id in self.active_ids)'],
+         modifies=['contents(self.queued)', 'contents(self.queued_ids)', 'self.queued', 'self.queued_ids', 'contents(self.active_ids)', 'self.wake.flag', 'contents(self.pending_dequeue)', 'contents(self.attempting)', 'contents(self.pending_retry)', 'fresh'])
 
 # ---------------------------------------------------------------------------- enqueue (C02, C03)
 T.alias('WriteResult', 'Union[Str, QueueError, OtherException]')
@@ -530,19 +563,19 @@ klass('Queue', fields={'queue_policies': 'List[QueuePolicy]'},
 
 extern('Queue._run_policies#call', params={'self': 'Queue', 'envelope': 'Envelope'})
 
-contract('Queue.enqueue', module=M, props=['C02', 'C03'],
+contract('Queue.enqueue', module=M, props=['C02', 'C03'], yields=True,
          params={'self': 'Queue', 'envelope': 'Envelope'},
          returns='List[Tuple[Envelope, WriteResult]]',
          requires=['QUEUE_ok(self)', 'envelope != None', 'self.store != None',
                    'self.queue_policies != None', 'forall(self.queue_policies, lambda p: p != None)',
-                   'forall(Str, lambda x: implies(x in self.attempting, x in self.active_ids))'],
+                   'INV_flight(self)'],
          ensures=['result != None',
                   # outcomes are ids or QueueErrors (anything else was re-raised)
                   'forall(range(0, len(result)), lambda k: isinstance(result[k][1], str) or isinstance(result[k][1], QueueError))',
                   # C03: an attempt is started only for ids not already active, and the id is marked active
                   'forall(range(0, len(result)), lambda k: implies(isinstance(result[k][1], str) and self.relay != None, '
                   '       cast(result[k][1], Str) in self.active_ids))',
-                  'forall(Str, lambda x: implies(x in self.attempting, x in self.active_ids))'],
+                  'INV_flight(self)'],
          checks=[
              # one result per envelope the policies produced, each envelope paired with the outcome of ITS write
              'len(result) == len(call_result("Queue._run_policies", 0))',
@@ -551,14 +584,13 @@ contract('Queue.enqueue', module=M, props=['C02', 'C03'],
              'same(call_arg("Queue._pool_imap", 0, 3), call_result("Queue._run_policies", 0))'
              if False else 'True'],
          raises={'OtherException': []},
-         modifies=['contents(self.active_ids)', 'contents(self.attempting)', 'envelope.*', 'fresh',
-                   'any(SpawnedGreenlet).done'],
+         modifies=['contents(self.queued)', 'contents(self.queued_ids)', 'self.queued', 'self.queued_ids', 'contents(self.active_ids)', 'self.wake.flag', 'contents(self.pending_dequeue)', 'contents(self.attempting)', 'contents(self.pending_retry)', 'envelope.*', 'fresh', 'any(SpawnedGreenlet).done'],
          loops={0: dict(modifies=['contents(self.active_ids)', 'contents(self.attempting)'],
-                        inv=['forall(Str, lambda x: implies(x in self.attempting, x in self.active_ids))',
+                        inv=['INV_flight(self)',
                              'forall(range(0, _k), lambda k: isinstance(results[k][1], str) or isinstance(results[k][1], QueueError))',
                              'forall(range(0, _k), lambda k: implies(isinstance(results[k][1], str) and self.relay != None, '
                              '       cast(results[k][1], Str) in self.active_ids))',
-                             'forall(Str, lambda x: implies(old(x in self.active_ids), x in self.active_ids))'])})
+                             'GHOST_ok(self)', 'INV_timetable(self)'])})
 
 
 # ---------------------------------------------------------------------------- queue policies chain (C16)
@@ -612,10 +644,10 @@ extern('AnyQueue.enqueue', params={'self': 'AnyQueue', 'envelope': 'Envelope'}, 
        notes='bounce_queue.enqueue(bounce): the normal enqueue path of the configured bounce queue (Queue.enqueue has its own contract)')
 klass('Queue', fields={'bounce_queue': 'AnyQueue'})
 
-contract('Queue._bounce', module=M, props=['C13'],
+contract('Queue._bounce', module=M, props=['C13'], yields=True,
          params={'self': 'Queue', 'envelope': 'Envelope', 'reply': 'Reply'},
          returns='Any',
-         requires=['self.bounce_factory != None', 'self.bounce_queue != None'],
+         requires=['QUEUE_ok(self)', 'self.bounce_factory != None', 'self.bounce_queue != None'],
          ensures=['ncalls("BounceFactory.__call__") == 1',
                   'same(call_arg("BounceFactory.__call__", 0, 1), envelope) and same(call_arg("BounceFactory.__call__", 0, 2), reply)',
                   # handed to the configured bounce queue exactly once iff the factory produced a bounce
@@ -623,7 +655,7 @@ contract('Queue._bounce', module=M, props=['C13'],
                   'implies(ncalls("AnyQueue.enqueue") == 1, '
                   '   same(call_arg("AnyQueue.enqueue", 0, 0), self.bounce_queue) '
                   '   and same(call_arg("AnyQueue.enqueue", 0, 1), call_result("BounceFactory.__call__", 0)))'],
-         modifies=[])
+         modifies=['contents(self.queued)', 'contents(self.queued_ids)', 'self.queued', 'self.queued_ids', 'contents(self.active_ids)', 'self.wake.flag', 'contents(self.pending_dequeue)', 'contents(self.attempting)', 'contents(self.pending_retry)'])
 
 # ---------------------------------------------------------------------------- _pool_imap (C02: waits for every write)
 klass('Spawner')
@@ -675,20 +707,22 @@ def R_CLASSES():
 
 calls.SPECFUNS['py_map'] = _py_map
 
-contract('Queue._pool_imap', module=M, props=['C02'],
+contract('Queue._pool_imap', module=M, props=['C02'], yields=True,
          params={'self': 'Queue', 'which': 'Str', 'func': 'Fn', '*iterables': 'Tuple[List[Envelope]]'},
          returns='List[WriteResult]',
-         requires=['iterables[0] != None'],
-         ensures=['result != None', 'fresh(result)', 'len(result) == len(iterables[0])'],
+         requires=['iterables[0] != None', 'QUEUE_ok(self)'],
+         ensures=['result != None', 'fresh(result)', 'len(result) == len(iterables[0])',
+                  'INV_timetable(self)', 'GHOST_ok(self)', 'INV_flight(self)'],
          checks=[
              # every write was joined before returning, and element k is the outcome of the k-th write
              'forall(range(0, len(result)), lambda k: threads[k].done and threads[k].index == k)',
              'forall(range(0, len(result)), lambda k: result[k] == (threads[k].value if threads[k].exception is None '
              '       else threads[k].exception))'],
          locals={'ret': 'List[WriteResult]'},
-         modifies=['fresh', 'any(SpawnedGreenlet).done'],
-         loops={0: dict(modifies=['fresh', 'any(SpawnedGreenlet).done'],
-                        inv=['ret != None and fresh(ret) and is_list(ret) and len(ret) == _k and threads is not ret',
+         modifies=['fresh', 'any(SpawnedGreenlet).done', 'contents(self.queued)', 'contents(self.queued_ids)', 'self.queued', 'self.queued_ids', 'contents(self.active_ids)', 'self.wake.flag', 'contents(self.pending_dequeue)', 'contents(self.attempting)', 'contents(self.pending_retry)'],
+         loops={0: dict(modifies=['fresh', 'any(SpawnedGreenlet).done', 'contents(self.queued)', 'contents(self.queued_ids)', 'self.queued', 'self.queued_ids', 'contents(self.active_ids)', 'self.wake.flag', 'contents(self.pending_dequeue)', 'contents(self.attempting)', 'contents(self.pending_retry)'],
+                        inv=['INV_timetable(self)', 'GHOST_ok(self)', 'INV_flight(self)',
+                             'ret != None and fresh(ret) and is_list(ret) and len(ret) == _k and threads is not ret',
                              'forall(range(0, len(threads)), lambda k: threads[k] != None and threads[k].index == k)',
                              'forall(range(0, _k), lambda k: threads[k].done)',
                              'forall(range(0, _k), lambda k: ret[k] == (threads[k].value if threads[k].exception is None '
